@@ -161,6 +161,21 @@ def rotation_angle_about_z(Ra, Rb):
 
 
 # ---- additions for C14 (appended; nothing above is changed) ---------------------------------
+def cross3(a, b):
+    """Cross product of two 3-vectors (plain floats: numpy.cross costs ~50 us per call)."""
+    a0, a1, a2 = float(a[0]), float(a[1]), float(a[2])
+    b0, b1, b2 = float(b[0]), float(b[1]), float(b[2])
+    return np.array([a1 * b2 - a2 * b1, a2 * b0 - a0 * b2, a0 * b1 - a1 * b0])
+
+
+def angle3(a, b):
+    """Angle between two 3-vectors, atan2(|a x b|, a.b), in plain floats."""
+    a0, a1, a2 = float(a[0]), float(a[1]), float(a[2])
+    b0, b1, b2 = float(b[0]), float(b[1]), float(b[2])
+    c0, c1, c2 = a1 * b2 - a2 * b1, a2 * b0 - a0 * b2, a0 * b1 - a1 * b0
+    return math.atan2(math.sqrt(c0 * c0 + c1 * c1 + c2 * c2), a0 * b0 + a1 * b1 + a2 * b2)
+
+
 def sez_from_azel(az, el, rho=1.0):
     """SEZ position of the point at azimuth ``az`` (from north through east), elevation ``el``, range ``rho``."""
     ce = math.cos(el)
@@ -225,15 +240,15 @@ def ray_min_distance(origin_pt, direction):
     along = float(np.dot(p, d))
     if along >= 0.0:
         return float(np.linalg.norm(p))
-    return float(np.linalg.norm(np.cross(p, d)))
+    return float(np.linalg.norm(cross3(p, d)))
 
 
 def radial_sez_basis(r):
     """Rows S, E, Z of a local frame whose Z axis is the geocentric radial direction of ``r``."""
     zen = unit(r[:3])
     k = np.array([0.0, 0.0, 1.0]) if abs(zen[2]) < 0.9 else np.array([1.0, 0.0, 0.0])
-    east = unit(np.cross(k, zen))
-    north = np.cross(zen, east)
+    east = unit(cross3(k, zen))
+    north = cross3(zen, east)
     return np.vstack([-north, east, zen])
 
 
@@ -243,6 +258,6 @@ def disc_limb_points(centre, radius, toward, n=24):
     c = np.asarray(centre[:3], dtype=float)
     los = unit(c - np.asarray(toward[:3], dtype=float))
     k = np.array([0.0, 0.0, 1.0]) if abs(los[2]) < 0.9 else np.array([1.0, 0.0, 0.0])
-    u = unit(np.cross(los, k))
-    v = np.cross(los, u)
+    u = unit(cross3(los, k))
+    v = cross3(los, u)
     return [c + radius * (math.cos(2 * math.pi * i / n) * u + math.sin(2 * math.pi * i / n) * v) for i in range(n)]
